@@ -212,6 +212,9 @@ func (c *c22Ctx) txCase(cs C22Case) {
 		return
 	}
 	c.checkTxList(cs, "built", l, n)
+	if n <= 600 {
+		c.protoTx(cs, "built", l, n, false)
+	}
 	h := l.Hash()
 	if cs.Kind == "txv1" {
 		return
@@ -233,6 +236,7 @@ func (c *c22Ctx) txCase(cs C22Case) {
 	c.checkTxList(cs, "flushed", l, n)
 	l2 := transaction.NewTransactionListFromHash(mdb, h)
 	c.checkTxList(cs, "reopened", l2, n)
+	c.protoTx(cs, "reopened", transaction.NewTransactionListFromHash(mdb, h), n, n > 600)
 }
 
 func (c *c22Ctx) checkRctList(cs C22Case, view string, l module.ReceiptList, n int, want [][]byte, proofs bool) {
@@ -346,6 +350,9 @@ func (c *c22Ctx) rctCase(cs C22Case) {
 		return
 	}
 	c.checkRctList(cs, "built", l, n, want, true)
+	if n <= 600 {
+		c.protoRct(cs, "built", l, n, want, false)
+	}
 	h := l.Hash()
 	if n <= 600 {
 		rs2, _ := c22NewReceipts(db.NewMapDB(), rev, n)
@@ -359,6 +366,7 @@ func (c *c22Ctx) rctCase(cs C22Case) {
 	}
 	l2 := txresult.NewReceiptListFromHash(mdb, h)
 	c.checkRctList(cs, "reopened", l2, n, want, n <= 600)
+	c.protoRct(cs, "reopened", txresult.NewReceiptListFromHash(mdb, h), n, want, n > 600)
 }
 
 func TestVerifC22(t *testing.T) {
@@ -373,7 +381,7 @@ func TestVerifC22(t *testing.T) {
 		big = []int{4095, 4096, 4097, 32767, 32768, 32769, 65535, 65536, 65537}
 		bigKinds = []string{"tx", "rct-v1", "rct-v2"}
 	}
-	r.Rule(fmt.Sprintf("list sizes n = 0..%d (all), %v and large %v; kinds: transaction list (trie), version-1 transaction list (small n), receipt list with format-1 receipts and with format-2 receipts (event logs in their own trie) (large n: %v); per list: iterate (count, index, content of every item), Get(j) for every j (n<=600) or for every key-encoding boundary +-3 and 97 evenly spaced j (large n), Get(n), Get(n+1) must fail, receipts: GetProof(j) verified by an empty-database verifier against Hash(); rebuild => same hash (n<=600); Flush; the same checks on a list re-opened from Hash(). evaluation = one list view checked; non-trivial = distinct (kind, n)", small, extra, big, bigKinds))
+	r.Rule(fmt.Sprintf("list sizes n = 0..%d (all), %v and large %v; kinds: transaction list (trie), version-1 transaction list (small n), receipt list with format-1 receipts and with format-2 receipts (event logs in their own trie) (large n: %v); per list: iterate (count, index, content of every item), Get(j) for every j (n<=600) or for every key-encoding boundary +-3 and 97 evenly spaced j (large n), Get(n), Get(n+1) must fail, receipts: GetProof(j) verified by an empty-database verifier against Hash(); rebuild => same hash (n<=600); Flush; the same checks on a list re-opened from Hash(); iterator protocol on the built (n<=600) and the re-opened list: per position the consumer calls Get() once, twice or not at all before Next() - all 3^n patterns for n<=6, every periodic pattern of period 1,2,3 for larger n (period 1,2 for the large sizes) - every Get() at position p must return item p with index p, Has() true for exactly n positions, lookup by the reported index gives the same item. evaluation = one list view checked; non-trivial = distinct (kind, n)", small, extra, big, bigKinds))
 	r.Assume("items: parseable version-3 transactions / receipts, distinct per index", "database is the in-memory MapDB", "the next key-length boundary (index 2^23) is out of reach and not covered")
 
 	maxN := big[len(big)-1]
@@ -466,6 +474,7 @@ func TestVerifC22(t *testing.T) {
 	}
 	r.Sanity(len(klens) >= 3, "index keys of only %d distinct lengths", len(klens))
 	r.Sanity(get("proofs_verified") > 0, "no receipt proof verified")
+	r.Sanity(get("protocol_patterns_run") > 0, "no iterator-protocol pattern ran")
 	r.Sanity(get("items_iterated") > 0 && get("lookups") > 0, "nothing iterated / looked up")
 	r.Finish(skipped == 0)
 }
